@@ -258,17 +258,26 @@ type timerOut struct {
 func timerHalf(r *ev.Run, bound, maxLen int) timerOut {
 	out := timerOut{Outcomes: map[string]int{}}
 	type cfg struct {
-		role  spectypes.BeaconRole
-		first specqbft.Round
+		role   spectypes.BeaconRole
+		first  specqbft.Round
+		maxLen int // 0 = every script; otherwise only scripts up to this length
 	}
-	cfgs := []cfg{{spectypes.BNRoleAttester, 1}, {spectypes.BNRoleProposer, 1}, {spectypes.BNRoleAttester, 8}}
+	cfgs := []cfg{{spectypes.BNRoleAttester, 1, 0}, {spectypes.BNRoleProposer, 1, 0}, {spectypes.BNRoleAttester, 8, 0}}
+	// every other role (each has its own base deadline) and a slow starting round, with the short
+	// scripts: arm, clock just before / at / after the deadline
+	for _, role := range []spectypes.BeaconRole{spectypes.BNRoleAggregator, spectypes.BNRoleSyncCommittee, spectypes.BNRoleSyncCommitteeContribution, spectypes.BNRoleValidatorRegistration, spectypes.BNRoleVoluntaryExit} {
+		cfgs = append(cfgs, cfg{role, 1, 3}, cfg{role, 9, 3})
+	}
 	if r.Thorough() {
-		cfgs = append(cfgs, cfg{spectypes.BNRoleAggregator, 1}, cfg{spectypes.BNRoleProposer, 8})
+		cfgs = append(cfgs, cfg{spectypes.BNRoleAggregator, 1, 0}, cfg{spectypes.BNRoleProposer, 8, 0}, cfg{spectypes.BNRoleSyncCommitteeContribution, 1, 0})
 	}
 	scs := scripts(maxLen, r.Thorough())
 	idx := 0
 	for _, c := range cfgs {
 		for _, sc := range scs {
+			if c.maxLen > 0 && len(sc) > c.maxLen {
+				continue
+			}
 			idx++
 			if !r.Mine(idx) {
 				continue
